@@ -224,6 +224,8 @@ def main(pid, argv):
     # is opened while the first handler runs) can only finish if the service really serves them side by side
     if not ck.replay or json.load(open(ck.replay))["failing"]["kind"] == "svc-side-by-side":
         mc = [(json.load(open(ck.replay))["failing"]["case"], None)] if ck.replay else [C.meet_case(rng) for _ in range(40 if thorough else 5)]
+        if not ck.replay:
+            mc += [C.fresh_methods_case(rng) for _ in range(12 if thorough else 3)]
         mi_ = C.run_impl(bins["h_svc"], [m[0] for m in mc], jobs=2)
         mm_ = C.run_model([m[0] for m in mc])
         for (line, meta), il, ml in zip(mc, mi_, mm_):
